@@ -11,6 +11,7 @@ inductive Event
   | install (q : ISReq) (failAt crashAt : Option Nat)
   | timeoutNow
   | snapshot (failAt crashAt : Option Nat)   -- takeSnapshot on the snapshot goroutine
+  | campaign (rs : List PeerResp)            -- one pass of the candidate loop (the server is a candidate)
   | restart
   | damagedRestart          -- the newest readable snapshot is damaged, then the process restarts
   | setRole (r : Role) (leader leaderId : Nat)
@@ -64,6 +65,7 @@ def planOf (w : World) : Event → Option (Plan × Option Nat × Option Nat)
   | .install q f c => some (isPlan w.cf w.d w.v q, f, c)
   | .timeoutNow => some (timeoutNowPlan w.v, none, none)
   | .snapshot f c => some (snapPlan w.cf w.d w.v w.fpos w.fdata, f, c)
+  | .campaign rs => some (campaign w.cf w.v rs, none, none)
   | .restart => none
   | .damagedRestart => none
   | .setRole _ _ _ => none
